@@ -206,9 +206,9 @@ def genRun {α : Type} (io : Io α) (op : String) (args : List Arg) : Option Str
       let a ← io.poly? a; let b ← io.poly? b; small a; small b; pure (okPO (Gen.Poly.naive_multiply F F F F.mul a b))
   | "slow_square", [a] => do let a ← io.poly? a; small a; pure (okPO (Gen.Poly.slow_square F a))
   | "pow", [a, .nat e] => do
-      let a ← io.poly? a; small a; if e ≥ 2 ^ 32 || a.length * e > 4096 then none else pure (okPO (Gen.Poly.pow F a e))
+      let a ← io.poly? a; small a; if e ≥ 2 ^ 32 || (a.length - 1) * e > 4096 then none else pure (okPO (Gen.Poly.pow F a e))
   | "fast_pow", [a, .nat e] => do
-      let a ← io.poly? a; small a; if e ≥ 2 ^ 32 || a.length * e > 4096 then none else
+      let a ← io.poly? a; small a; if e ≥ 2 ^ 32 || (a.length - 1) * e > 4096 then none else
       pure (okPO (Gen.Poly.fast_pow F (Gen.Poly.fast_square F io.T.ntt io.T.intt)
         (Gen.Poly.fast_multiply F F F F.mul io.T.ntt io.T.ntt io.T.intt) a e))
   | "multiply", [a, b] => do
